@@ -184,7 +184,7 @@ def run_scenario(run: Run, scen: dict, rng: random.Random):
 
 
 def check(run: Run, tier: str, seed: int):
-    n = 300 if tier == "quick" else 4000
+    n = 600 if tier == "quick" else 4000
     for i in range(n):
         srng = random.Random(f"C17-{seed}-{i}")
         level = "circuit" if i % 4 == 3 else "parameter"
